@@ -225,7 +225,9 @@ func (te *tableEngine) startGame() error {
 		}
 	})
 	te.game.OnGameRoundClosed(func(gs *pokerface.GameState) {
+		te.deadlineLock.Lock()
 		te.table.State.CurrentActionEndAt = 0
+		te.deadlineLock.Unlock()
 	})
 
 	// start game
@@ -314,7 +316,9 @@ func (te *tableEngine) continueGame(alivePlayers []*TablePlayerState) error {
 	te.table.State.Status = TableStateStatus_TableGameStandby
 	te.table.State.GamePlayerIndexes = make([]int, 0)
 	te.table.State.NextBBOrderPlayerIDs = make([]string, 0)
+	te.deadlineLock.Lock()
 	te.table.State.CurrentActionEndAt = 0
+	te.deadlineLock.Unlock()
 	te.table.State.GameState = nil
 	te.table.State.LastPlayerGameAction = nil
 	for i := 0; i < len(te.table.State.PlayerStates); i++ {
